@@ -355,7 +355,7 @@ def rechunk(
     if not len(chunks) == ndim:
         raise ValueError("Provided chunks are not consistent with shape")
 
-    if not balance and (chunks == x.chunks):
+    if (not balance or ndim == 0) and (chunks == x.chunks):
         return x
 
     if balance:
